@@ -32,6 +32,7 @@ import (
 	"time"
 
 	"github.com/XiaoMi/Gaea/models"
+	uber_atomic "go.uber.org/atomic"
 	kit "github.com/XiaoMi/Gaea/verifkit"
 	"github.com/XiaoMi/Gaea/verifkit/mycli"
 )
@@ -44,6 +45,7 @@ const (
 	c38KnownTries = 2                // how often an established hang is re-observed before matching inputs are skipped
 	c38Slack      = 12
 	c38CanaryUser = "ns1_rws"
+	c38SmallMaxConns = 8
 )
 
 var c38ProbeMark = []byte("command 247 not supported")
@@ -52,7 +54,9 @@ func c38Namespaces() []*models.Namespace {
 	ns1 := rigBasicNamespace("ns1")
 	ns2 := rigBasicNamespace("ns2")
 	ns2.SetForKeepSession = true
-	return []*models.Namespace{ns1, ns2}
+	ns3 := rigBasicNamespace("ns3")
+	ns3.MaxClientConnections = c38SmallMaxConns // a leaked client-connection slot locks other clients out quickly
+	return []*models.Namespace{ns1, ns2, ns3}
 }
 
 // ---------------------------------------------------------------- building handshake bytes
@@ -386,12 +390,18 @@ func (d *c38Driver) open(cs *c38Case) (net.Conn, error) {
 	if err != nil {
 		return nil, err
 	}
-	pw := map[string]string{"ns1_rw": "pw_rw", "ns2_rw": "pw_rw", "": "pw_rw"}[cs.User]
+	pw := "pw_rw"
 	user := cs.User
 	if user == "" {
 		user = "ns1_rw"
 	}
-	c, err := mycli.Handshake(nc, mycli.Options{User: user, Password: pw, DB: "db", Timeout: c38Watchdog})
+	db := "db"
+	if cs.DB == "<none>" {
+		db = ""
+	} else if cs.DB != "" {
+		db = cs.DB // the handshake's database name is stored unchecked by the proxy
+	}
+	c, err := mycli.Handshake(nc, mycli.Options{User: user, Password: pw, DB: db, Timeout: c38Watchdog})
 	if err != nil {
 		nc.Close()
 		return nil, fmt.Errorf("prelude handshake: %v", err)
@@ -737,6 +747,44 @@ type c38Checker struct {
 	wait     time.Duration
 	// sessions known to be stuck (each already reported as a hang): not reported again
 	allowOpen int
+	// client-connection slots per namespace (white-box: StatisticManager.clientConnecions) when only the canary is connected
+	slots map[string]int32
+}
+
+// connSlots reads the per-namespace client connection counters the handshake checks against max_client_connections.
+func (k *c38Checker) connSlots() map[string]int32 {
+	out := map[string]int32{}
+	for _, ns := range []string{"ns1", "ns2", "ns3"} {
+		if v, ok := k.r.m.statistics.clientConnecions.Load(ns); ok {
+			out[ns] = v.(*uber_atomic.Int32).Load()
+		} else {
+			out[ns] = 0
+		}
+	}
+	return out
+}
+
+// slotsSettled waits until the counters are back at their baseline (+ sessions already reported as hung).
+func (k *c38Checker) slotsSettled() (map[string]int32, bool) {
+	deadline := time.Now().Add(k.wait)
+	for {
+		cur := k.connSlots()
+		extra := int32(0)
+		for ns, v := range cur {
+			if v > k.slots[ns] {
+				extra += v - k.slots[ns]
+			} else if v < k.slots[ns] {
+				return cur, false
+			}
+		}
+		if extra <= int32(k.allowOpen) {
+			return cur, true
+		}
+		if time.Now().After(deadline) {
+			return cur, false
+		}
+		time.Sleep(2 * time.Millisecond)
+	}
 }
 
 // sessionsGone waits until only the canary's socket is open on the server side.
@@ -797,6 +845,20 @@ func (k *c38Checker) check(fresh bool) []string {
 			bad = append(bad, "session-stuck: the fresh client's session did not end")
 			k.allowOpen = k.r.activeSessions() - 1
 		}
+	}
+	if fresh {
+		// the namespace with a small max_client_connections must still admit a client
+		c, err := k.r.Dial("ns3_rw", "pw_rw", "db")
+		if err != nil {
+			bad = append(bad, fmt.Sprintf("accept-dead: a new client of the namespace with max_client_connections=%d cannot log in although no other client of it is connected: %v", c38SmallMaxConns, err))
+		} else {
+			c.Quit()
+			k.sessionsGone()
+		}
+	}
+	if cur, ok := k.slotsSettled(); !ok {
+		bad = append(bad, fmt.Sprintf("conn-slot-leak: client-connection counters of the namespaces are %v with only the canary connected, baseline %v (each leaked slot counts against max_client_connections for ever)", cur, k.slots))
+		k.slots = cur // report once
 	}
 	var leaked []string
 	for _, ci := range k.r.B.Conns() {
@@ -889,6 +951,7 @@ func TestVerif_C38(t *testing.T) {
 	k.sessionsGone()
 	time.Sleep(50 * time.Millisecond)
 	k.baseline = runtime.NumGoroutine()
+	k.slots = k.connSlots()
 	if bad := k.check(true); len(bad) > 0 {
 		rec.Inconclusive("batch checks fail before any hostile input: " + strings.Join(bad, "; "))
 		return
@@ -962,6 +1025,14 @@ func TestVerif_C38(t *testing.T) {
 	if bad := k.check(true); len(bad) > 0 {
 		for _, b := range bad {
 			rec.Violation(c38Clause(b)+":cross/truncated-disconnect", "after the cross-session phase (clients that announce a packet, send less and disconnect): "+b, map[string]interface{}{"detail": b})
+		}
+	}
+	// ---- many sessions sending the same never-seen malformed statement at the same moment
+	if !c38Storm(rec, r, pre) {
+		if bad := k.check(true); len(bad) > 0 {
+			for _, b := range bad {
+				rec.Violation(c38Clause(b)+":storm/same-malformed", "after the rounds of simultaneous malformed statements: "+b, map[string]interface{}{"detail": b})
+			}
 		}
 	}
 	rec.Set("inputs_sent", d.inputs)
